@@ -112,7 +112,10 @@ class TVNorm(Functional):
               TV norm of `x`.
         """
         if self.G is None or self.G.shape[1] != x.shape or self.G.input_dtype != x.dtype:
-            self.G = self._call_operator(x.shape, x.dtype)
+            # Construct with concrete values even when called inside a jitted function,
+            # so that the cached operator does not hold on to tracers.
+            with jax.ensure_compile_time_eval():
+                self.G = self._call_operator(x.shape, x.dtype)
         return self.norm(self.G @ x)
 
     def _prox_operators(
@@ -220,9 +223,12 @@ class TVNorm(Functional):
                 classes.
         """
         if self.WP is None or self.WP.shape[1] != v.shape or self.WP.input_dtype != v.dtype:
-            self.WP, self.CWT, self.prox_ndims, self.prox_slice = self._prox_operators(
-                v.shape, v.dtype
-            )
+            # Construct with concrete values even when called inside a jitted function,
+            # so that the cached operators do not hold on to tracers.
+            with jax.ensure_compile_time_eval():
+                self.WP, self.CWT, self.prox_ndims, self.prox_slice = self._prox_operators(
+                    v.shape, v.dtype
+                )
         assert self.prox_ndims is not None
         assert self.prox_slice is not None
         K = 2 * self.prox_ndims
@@ -358,7 +364,6 @@ class SingleAxisFiniteSum(LinearOperator):
     .. math::
 
        \left(\begin{array}{rrrrr}
-        1 & 0 & 0 & \ldots & 0\\
        1 & 1 & 0 & \ldots & 0\\
        0 & 1 & 1 & \ldots & 0\\
        \vdots & \vdots & \ddots & \ddots & \vdots\\
